@@ -17,7 +17,7 @@ import (
 const instrumented = true
 
 func installHook(h func(id int)) { zzvsched.Hook = h }
-func stepCount() int64          { return zzvsched.Steps }
+func stepCount() int64           { return zzvsched.Steps }
 
 type c18Sched struct {
 	c        *choose.Ctx
